@@ -178,7 +178,10 @@ func ruleServerID(c *Ctx, prefix string) {
 			oO, _ := histFact(st, "bool", o54Own)
 			oH, _ := histFact(st, "bool", o54Has)
 			siOK := or3(sN, sZ, sO)
-			o54OK := or3(oN, oO, not3(oH))
+			o54OK := or3(oN, oO)
+			if oH != -1 {
+				o54OK = or3(oN, oO, not3(oH))
+			}
 			r0 := ex.Resolve(st, ret.Results[0])
 			if isNilConst(r0) {
 				nDrop++
